@@ -1,4 +1,5 @@
 """C10 — entanglement looks like Phi+ whatever Bell state the link delivered."""
+import inspect
 import itertools
 import json
 import os
@@ -219,23 +220,29 @@ def run_keep(repo, ns, case):
         from netqasm.sdk.qubit import Qubit
         with pipe.connection(epr_sockets=[sock]) as conn:
             extra = [Qubit(conn) for _ in range(case["extra"])]
+            fn = getattr(sock, case["call"])
+            accepted = inspect.signature(fn).parameters
             kw = dict(number=n)
-            if case["post"]:
+            if case["post"] and "post_routine" in accepted:
                 kw["post_routine"] = lambda _c, q, _pair: q.measure()
-            if case["seq"]:
+            if case["seq"] and "sequential" in accepted:
                 kw["sequential"] = True
-            if recv and case["call"] == "recv_keep":
+            if "expect_phi_plus" in accepted:
                 kw["expect_phi_plus"] = case["expect"]
-                qs = sock.recv_keep(**kw)
-            elif case["call"] == "recv_rsp":
-                kw.pop("post_routine", None)
-                qs = sock.recv_rsp(number=n, expect_phi_plus=case["expect"])
+            elif not case["expect"]:
+                raise RuntimeError(f"{case['call']} does not take expect_phi_plus")
+            if case.get("kind") == "context":
+                # a context variant: the body is the post routine (fidelity is read at the measurement)
+                with fn(**kw) as (q, _pair):
+                    q.measure()
+                qs = []
             else:
-                qs = sock.create_keep(**kw)
+                r = fn(**kw)
+                qs = r[0] if isinstance(r, tuple) else r   # *_with_info variants return (qubits, infos)
             conn.flush()
             out["ids"] = [q.qubit_id for q in qs]
             app = conn.app_id
-            if not case["post"]:
+            if not case["post"] and case.get("kind") != "context":
                 for i, q in enumerate(qs):
                     lk, rk = (app, q.qubit_id), ("remote", i)
                     out["fid"][i] = pair_fidelity(ex, lk, rk)
@@ -296,9 +303,10 @@ def judge(ctx, ns, table, case, res, tcases, tmeta):
     paulis = [e for e in res["trace"] if e[0] in ("rot_x", "rot_y", "rot_z", "x", "y", "z")]
     # correspondence material (the model's variant with the ids the pairs arrive on)
     obs = [e for e in res["trace"]]
-    tcases.append(f"mkTC {case['variant']} {cqb(corrected)} {lst(z(v) for v in ids)} {lst(z(v) for v in case['bells'])} "
+    if not case.get("no_model"):
+      tcases.append(f"mkTC {case['variant']} {cqb(corrected)} {lst(z(v) for v in ids)} {lst(z(v) for v in case['bells'])} "
                   f"{lst(f'Ev {s(e[0])} {z(e[1])} {z(e[2])} {z(e[3])}' for e in obs)}")
-    tmeta.append(replay)
+      tmeta.append(replay)
     if not corrected:
         if paulis:
             ctx.violation("correction gates although the application did not ask for Phi+ / is the creator",
@@ -323,6 +331,105 @@ def judge(ctx, ns, table, case, res, tcases, tmeta):
     ctx.violation("a kept qubit is not in Phi+ with its remote partner after the receive", replay, key=None)
 
 
+# how the harness calls each public EPRSocket method that takes expect_phi_plus, and which
+# emitted-code variant it is compared with.  The methods are DISCOVERED from the class
+# (inspect.signature); one that is not listed here is an obligation failure (fail-closed).
+KNOWN_EXPECT_VARIANTS = {
+    "recv_keep": "keep", "recv_keep_with_info": "keep",
+    "recv_rsp": "rsp", "recv_rsp_with_info": "rsp",
+    "recv_measure": "measure",
+    # context managers yield (qubit, pair index); they do not take the switch in this code base
+    "recv_context": "context", "create_context": "context",
+}
+
+
+def discover_expect_variants(ctx):
+    from netqasm.sdk.epr_socket import EPRSocket
+
+    found, unknown, public = [], [], []
+    for name, fn in inspect.getmembers(EPRSocket, predicate=callable):
+        if name.startswith("_"):
+            continue
+        try:
+            params = inspect.signature(fn).parameters
+        except (TypeError, ValueError):
+            continue
+        public.append(name)
+        if "expect_phi_plus" in params:
+            if name in KNOWN_EXPECT_VARIANTS:
+                found.append((name, KNOWN_EXPECT_VARIANTS[name], sorted(params)))
+            else:
+                unknown.append(name)
+    ctx.gen_obligation("every public EPRSocket method taking expect_phi_plus is one the harness knows how to call",
+                       not unknown and bool(found), f"unknown: {unknown}; found: {[f[0] for f in found]}")
+    return found, public
+
+
+def variant_cases(ctx, found, bvals, quick):
+    """every discovered variant x expectation on/off x Bell tuples (all for n <= 2)"""
+    cases = []
+    for name, kind, params in found:
+        if kind == "measure":
+            continue
+        for expect in (True, False):
+            for extra in (0, 1):
+                for n in (1, 2) if (quick or kind == "context") else (1, 2, 3):
+                    tl = list(itertools.product(bvals, repeat=n))
+                    if n == 3:
+                        tl = ctx.rng.sample(tl, 16)
+                    for tup in tl:
+                        c = dict(cfg="api:" + name, variant=0, hardware="generic", call=name, post=False, seq=False,
+                                 extra=extra, n=n, bells=list(tup), expect=expect, kind=kind)
+                        if kind == "context":
+                            c.update(no_model=True, n=1, bells=[tup[0]])
+                        cases.append(c)
+    return cases
+
+
+def measure_variant_runs(ctx, ns, found, quick):
+    """measure-directly variants taking expect_phi_plus: with the expectation off the handle returns the
+    raw outcome; with it on (default Z basis on both sides) the outcome is flipped exactly for the states in which
+    the two Z outcomes are anti-correlated (PSI_PLUS, PSI_MINUS), i.e. it looks like Phi+ (m_local == m_remote)."""
+    qc = ns.qc
+    nrun = 0
+    for name, kind, params in found:
+        if kind != "measure":
+            continue
+        for expect in (True, False):
+            for n in (1, 2):
+                for tup in itertools.product([m.value for m in qc.BellState], repeat=n):
+                    for outs in itertools.product((0, 1), repeat=n):
+                        case = dict(call=name, kw=dict(number=n, expect_phi_plus=expect), node=1, sock=0, own_node=0)
+                        resp = []
+                        for i in range(n):
+                            d = dict(type=qc.ReturnType.OK_M.value, create_id=7 + i, measurement_outcome=outs[i],
+                                     measurement_basis=qc.Basis.Z.value, directionality_flag=1, sequence_number=i,
+                                     purpose_id=0, remote_node_id=1, goodness=5 + i, bell_state=tup[i])
+                            resp.append([d[f] for f in qc.LinkLayerOKTypeM._fields])
+                        case["resp"] = resp
+                        res = ec.run_case(ctx.repo, ns, case)
+                        nrun += 1
+                        ctx.note_case(("api:" + name, tuple(tup), outs, expect),
+                                      nontrivial=any(b != qc.BellState.PHI_PLUS.value for b in tup))
+                        replay = dict(variant=name, expect_phi_plus=expect, bells=[qc.BellState(b).name for b in tup],
+                                      raw_outcomes=list(outs), error=res.error,
+                                      observed=[(h.get("measurement_outcome"), h.get("post_process"))
+                                                for h in (res.handles or {}).get("meas", [])])
+                        if res.error or not res.handles or len(res.handles["meas"]) != n:
+                            ctx.violation("the measure-directly receive raised / returned no handles", replay, key=None)
+                            continue
+                        for i, h in enumerate(res.handles["meas"]):
+                            anti = qc.BellState(tup[i]).name in ("PSI_PLUS", "PSI_MINUS")
+                            want = outs[i] ^ 1 if (expect and anti) else outs[i]
+                            if h["measurement_outcome"] != want or h["post_process"] != expect:
+                                what = ("measure-directly outcome is post-processed although the expectation is switched off"
+                                        if not expect else
+                                        "measure-directly outcome does not look like a Phi+ outcome although Phi+ was asked for")
+                                ctx.violation(what, replay, key=None)
+                                break
+    return nrun
+
+
 def tuples(ctx, bvals, n, quick):
     allt = list(itertools.product(bvals, repeat=n))
     if n <= 2 or not quick:
@@ -340,7 +447,10 @@ def run(ctx):
                 "scripted K responses: n = 1..4 x Bell-state tuples (quick: all tuples for n <= 2, 6/5 sampled for n = 3/4; "
                 "thorough: all 4+16+64+256) x variants (wait-all loop, post routine, sequential, move-to-memory, rsp) x "
                 "generic / NV x 0..2 extra live qubits shifting the IDs; expectation off and the creator role on all "
-                "tuples n <= 2 (+ sampled); responses also as qlink-interface 1.0 objects.  non-trivial = at least one "
+                "tuples n <= 2 (+ sampled); responses also as qlink-interface 1.0 objects; additionally EVERY public "
+                "EPRSocket method whose signature takes expect_phi_plus (discovered by inspect.signature, fail-closed) x "
+                "expectation on/off x all Bell tuples n <= 2 (thorough: + 16 sampled n = 3) x 0/1 extra qubit, the "
+                "measure-directly variant x all tuples x all raw outcomes.  non-trivial = at least one "
                 "pair not delivered in Phi+; distinct = distinct (configuration, extra, tuple)")
     ok, err = ctx.gen("epr_tables.py", "Gen_Epr.v")
     ctx.gen_obligation("translator epr_tables.py understands the source", ok, err.strip()[-400:])
@@ -416,6 +526,12 @@ def run(ctx):
         for tup in tuples(ctx, bvals, 1, quick) + (tuples(ctx, bvals, 2, quick) if variant else []):
             cases.append(dict(cfg=name, variant=variant, hardware=hw, call=call, post=post, seq=seq, extra=0,
                               n=len(tup), bells=list(tup), expect=True, qlink=True))
+    found, public = discover_expect_variants(ctx)
+    ctx.coverage["expect_phi_plus_variants"] = [f[0] for f in found]
+    ctx.coverage["public_epr_socket_methods"] = public
+    cases += variant_cases(ctx, found, bvals, quick)
+    nmeas = measure_variant_runs(ctx, ns, found, quick)
+    dist["api:measure-directly runs"] = nmeas
     for k, case in enumerate(cases):
         case.setdefault("seed", k)
         res = run_keep(ctx.repo, ns, case)
